@@ -149,7 +149,12 @@ class Region(object):
         """
         if depth not in self.pixeldict:
             self.pixeldict[depth] = set()
-        self.pixeldict[depth].update(set(pix))
+        try:
+            pix = set(pix)
+        except TypeError:
+            # a single pixel number (the docstring allows "int or iterable")
+            pix = set((pix,))
+        self.pixeldict[depth].update(pix)
         # the cached deepest-level view no longer describes this region
         self.demoted = set()
 
